@@ -233,14 +233,14 @@ def Ty.encodable : Ty → Bool
   | .map k v => k.encodable && v.encodable
   | _ => true
 
-/-- what an unnamed composite writes in front of its body when state.encodeType is set:
-    edtType, uint16(len(prefix)), prefix (encode.go:142-147, 204-209, 268-273) -/
-def typeHdr (o : Opts) (et : Bool) (t : Ty) : Bytes :=
-  if et then edtType :: be16 (encTy o t).length ++ encTy o t else []
-
-def regHdr (o : Opts) (et : Bool) (name : Bytes) : Bytes := if et then regPrefix o name else []
-
-def tagHdr (et : Bool) (tag : UInt8) : Bytes := if et then [tag] else []
+/-- what Encode writes in front of the body when state.encodeType is set (and what edf.Encode writes at top level):
+    unnamed composites: edtType, uint16(len(prefix)), prefix (encode.go:58-65, 142-147, 204-209, 268-273);
+    registered types: the name prefix or the 3-byte cache id (regEncoder, register.go:684); leaves: the tag byte -/
+def hdr (o : Opts) : Ty → Bytes
+  | .slice t => edtType :: be16 (encTy o (.slice t)).length ++ encTy o (.slice t)
+  | .array n t => edtType :: be16 (encTy o (.array n t)).length ++ encTy o (.array n t)
+  | .map k v => edtType :: be16 (encTy o (.map k v)).length ++ encTy o (.map k v)
+  | t => encTy o t
 
 -- ---------------------------------------------------------------------------------------------
 -- leaves
@@ -319,73 +319,64 @@ def Ty.namedLeaf : Ty → Bool
 -- ---------------------------------------------------------------------------------------------
 
 mutual
-/-- encoder.Encode(value, b, state) with state.encodeType = et -/
-def enc (o : Opts) (et : Bool) : Ty → Val → Option Bytes
-  -- encodeError writes ff ff for a nil error before looking at encodeType (encode.go:613)
+/-- encoder.Encode(value, b, state) with state.encodeType = false: the body without any type information.
+    (With encodeType = true the same body follows `hdr o t`; the only exception is a nil error, which writes
+    ff ff before looking at the flag, encode.go:613 — a nil error never sits in an interface.) -/
+def encB (o : Opts) : Ty → Val → Option Bytes
   | .error, .nil => some [0xff, 0xff]
-  -- encodeAny (encode.go:414)
+  -- encodeAny (encode.go:414): the dynamic value is encoded with encodeType = true
   | .any, .nil => some [edtNil]
-  | .any, .any t v => if t.encodable && t != .any then enc o true t v else none
+  | .any, .any .error .nil => none
+  | .any, .any t v => if t.encodable && t != .any then (encB o t v).map fun body => hdr o t ++ body else none
   -- unnamed slice (encode.go:203)
-  | .slice t, .nil => some (typeHdr o et (.slice t) ++ [edtNil])
-  | .slice t, .list vs =>
-      (encs o t vs).map fun body => typeHdr o et (.slice t) ++ edtSlice :: be32 vs.length ++ body
+  | .slice _, .nil => some [edtNil]
+  | .slice t, .list vs => (encs o t vs).map fun body => edtSlice :: be32 vs.length ++ body
   -- unnamed array (encode.go:267)
-  | .array n t, .list vs =>
-      if vs.length = n then (encs o t vs).map fun body => typeHdr o et (.array n t) ++ body else none
+  | .array n t, .list vs => if vs.length = n then encs o t vs else none
   -- unnamed map (encode.go:141)
-  | .map k v, .nil => some (typeHdr o et (.map k v) ++ [edtNil])
-  | .map k v, .map ps =>
-      (encp o k v ps).map fun body => typeHdr o et (.map k v) ++ edtMap :: be32 ps.length ++ body
-  -- registered slice / array / map (register.go:379, 477, 550); regEncoder wrapper (register.go:684)
-  | .named nm (.slice _), .nil => some (regHdr o et nm ++ [edtNil])
-  | .named nm (.slice t), .list vs =>
-      (encs o t vs).map fun body => regHdr o et nm ++ edtReg :: be32 vs.length ++ body
-  | .named nm (.array n t), .list vs =>
-      if vs.length = n then (encs o t vs).map fun body => regHdr o et nm ++ body else none
-  | .named nm (.map _ _), .nil => some (regHdr o et nm ++ [edtNil])
-  | .named nm (.map k v), .map ps =>
-      (encp o k v ps).map fun body => regHdr o et nm ++ edtReg :: be32 ps.length ++ body
+  | .map _ _, .nil => some [edtNil]
+  | .map k v, .map ps => (encp o k v ps).map fun body => edtMap :: be32 ps.length ++ body
+  -- registered slice / array / map (register.go:379, 477, 550)
+  | .named _ (.slice _), .nil => some [edtNil]
+  | .named _ (.slice t), .list vs => (encs o t vs).map fun body => edtReg :: be32 vs.length ++ body
+  | .named _ (.array n t), .list vs => if vs.length = n then encs o t vs else none
+  | .named _ (.map _ _), .nil => some [edtNil]
+  | .named _ (.map k v), .map ps => (encp o k v ps).map fun body => edtReg :: be32 ps.length ++ body
   -- registered struct (register.go:321)
-  | .struct nm fs, .list vs => (encf o fs vs).map fun body => regHdr o et nm ++ body
+  | .struct _ fs, .list vs => encf o fs vs
   -- registered Marshaler / BinaryMarshaler (register.go:61, 116)
-  | .marsh nm _, .opaque p =>
-      if p.length > limBinaryEnc - 1 then none else some (regHdr o et nm ++ be32 p.length ++ p)
+  | .marsh _ _, .opaque p => if p.length > limBinaryEnc - 1 then none else some (be32 p.length ++ p)
   -- registered named bool/number/string, and the leaves
-  | .named nm t, v => if t.namedLeaf then (encLeaf o t v).map fun body => regHdr o et nm ++ body else none
-  | t, v =>
-      match t.leafTag with
-      | some tag => (encLeaf o t v).map fun body => tagHdr et tag ++ body
-      | none => none
+  | .named _ t, v => if t.namedLeaf then encLeaf o t v else none
+  | t, v => encLeaf o t v
 /-- elements of a slice/array: encodeType = false for every item -/
 def encs (o : Opts) : Ty → Vals → Option Bytes
   | _, .nil => some []
   | t, .cons v vs =>
-      match enc o false t v, encs o t vs with
+      match encB o t v, encs o t vs with
       | some a, some b => some (a ++ b)
       | _, _ => none
 /-- key/value pairs of a map in iteration order -/
 def encp (o : Opts) : Ty → Ty → Pairs → Option Bytes
   | _, _, .nil => some []
   | kt, vt, .cons k v ps =>
-      match enc o false kt k, enc o false vt v, encp o kt vt ps with
+      match encB o kt k, encB o vt v, encp o kt vt ps with
       | some a, some b, some c => some (a ++ b ++ c)
       | _, _, _ => none
 /-- struct fields -/
 def encf (o : Opts) : Tys → Vals → Option Bytes
   | .nil, .nil => some []
   | .cons t ts, .cons v vs =>
-      match enc o false t v, encf o ts vs with
+      match encB o t v, encf o ts vs with
       | some a, some b => some (a ++ b)
       | _, _ => none
   | _, _ => none
 end
 
-/-- edf.Encode(x, b, options) for a value x of dynamic type t (encode.go:35).
-    Prefix handling: `edtType len16` in front of prefixes longer than one byte that do not start with edtReg,
-    then the prefix, then Encode with encodeType = false — this is exactly what Encode with encodeType = true writes. -/
+/-- edf.Encode(x, b, options) for a non-nil x of dynamic type t (encode.go:35): getEncoder must succeed,
+    then prefix (= `hdr`) and body. -/
 def encode (o : Opts) (t : Ty) (v : Val) : Option Bytes :=
-  if t.encodable && t != .any then enc o true t v else none
+  if t.encodable && t != .any && !(t == .error && v == .nil) then (encB o t v).map fun body => hdr o t ++ body else none
 
 -- ---------------------------------------------------------------------------------------------
 -- decoder
